@@ -344,7 +344,7 @@ class ASL_API Var
 	void operator=(double x);
 	void operator=(int x);
 	void operator=(Long x);
-	void operator=(ULong x) { (*this) = (Long)x; }
+	void operator=(ULong x) { (*this) = (double)x; } // not through Long: values above 2^63 would turn negative
 	void operator=(float x);
 	void operator=(unsigned x);
 	void operator=(long x) { if ((long)(int)x == x) *this = (int)x; else *this = (Long)x; }
